@@ -798,11 +798,17 @@ fn frame_lines(f: &Frame, graphs: &HashMap<usize, &RGraph>) -> Option<(String, S
     let mut bad = f.bad.clone();
     // independent check: nothing handed out mutably is a constant's id unless that id was supplied
     // as an owned input (then the supplied value, not the constant, is in temp_values)
-    let owned_ids: HashSet<u32> = f.owned.iter().map(|e| e.0).collect();
+    // (since fix 204e787 a value supplied for a constant's id is never moved into temp_values, so a
+    // constant's id can never legitimately be taken)
+    for (id, _) in &f.owned {
+        if d.constants.contains(id) {
+            bad.push(format!("owned value supplied for constant {id} was moved into temp_values"));
+        }
+    }
     for s in &f.steps {
         for id in s.taken.iter().map(|t| t.1).chain(s.by_value.iter().map(|t| t.0)) {
-            if d.constants.contains(&id) && !owned_ids.contains(&id) {
-                bad.push(format!("constant {id} handed out mutably at op {}", s.op));
+            if d.constants.contains(&id) {
+                bad.push(format!("constant id {id} handed out mutably at op {}", s.op));
             }
         }
     }
@@ -1006,7 +1012,38 @@ fn gen_request(rng: &mut Rng, gm: &GenModel, model: &Model, out: &mut Out) -> Op
     // outputs: declared outputs, or a random set of values of every class
     let mut outs: Vec<(String, NodeId)> = vec![];
     let mut out_decl = vec![];
-    if rng.chance(1, 3) {
+    // directed: a value supplied BY VALUE for a constant's id, placed after another by-value input,
+    // the constant itself requested as an output (then its reference count is 1) together with
+    // values computed from it
+    if rng.chance(1, 5) {
+        let consts: Vec<&VInfo> = gm
+            .vals
+            .iter()
+            .filter(|v| v.class == Class::Const && v.shape.is_some() && model.find_node(&v.name).is_some())
+            .collect();
+        if !consts.is_empty() && ins.iter().any(|i| i.cond.is_none()) {
+            let c = consts[rng.usize_below(consts.len())];
+            let id = model.find_node(&c.name).unwrap();
+            ins.retain(|i| i.id != id);
+            for i in ins.iter_mut() {
+                if i.cond.is_none() && rng.chance(3, 4) {
+                    i.owned = true;
+                }
+            }
+            let shape = c.shape.clone().unwrap();
+            ins.push(ReqIn { name: c.name.clone(), id, data: rand_f32s(rng, numel(&shape)), shape, cond: None, owned: true });
+            if rng.chance(1, 3) {
+                let n = ins.len();
+                ins.swap(n - 1, rng.usize_below(n));
+            }
+            outs.push((c.name.clone(), id));
+            out_decl.push(None);
+            if kind == "plain" {
+                kind = "const_owned_directed";
+            }
+        }
+    }
+    if outs.is_empty() && rng.chance(1, 3) {
         for (p, id) in model.output_ids().iter().enumerate() {
             let name = model.node_info(*id).and_then(|i| i.name().map(|s| s.to_string())).unwrap_or_default();
             if !outs.iter().any(|o| o.1 == *id) {
@@ -1367,6 +1404,24 @@ fn main() {
                 if !ok {
                     let req = format!("# model {mi} request {ri} seed {} request assumptions", args.seed);
                     out.case(&req, "-", Some("ASSUMPTION (not the property): request not well formed"), false);
+                }
+            }
+            // same inputs, all passed as views: same outputs (how a value is passed is not an input)
+            if rq.ins.iter().any(|i| i.owned) {
+                let mut rb = rq.clone();
+                for i in rb.ins.iter_mut() {
+                    i.owned = false;
+                }
+                let (o_b, _, _) = run_request(&fresh, &rb, None, false);
+                out.bucket("owned_vs_borrowed");
+                if !o.same(&o_b) {
+                    fails.push(format!(
+                        "request {ri} ({}) gives different outputs with owned and with borrowed inputs ({} vs {}); outputs {:?}",
+                        rq.kind,
+                        o.tag(),
+                        o_b.tag(),
+                        rq.outs.iter().map(|x| x.0.clone()).collect::<Vec<_>>()
+                    ));
                 }
             }
             // assumption `opContract` (in place == out of place): the same request with the hook's
